@@ -10,6 +10,8 @@ package main
 
 import (
 	"fmt"
+	"go/types"
+	"sort"
 	"strings"
 
 	"golang.org/x/tools/go/ssa"
@@ -302,4 +304,172 @@ func extremeDescent(gc *GCNF, g *GC, src, dst string) bool {
 		}
 	}
 	return false
+}
+
+// ---- R44 NILRESULT: the result of a helper that answers nil exactly for a nil argument is dereferenced only where the
+// argument is known non-nil ----
+//
+// `maximumNode(x)` returns nil when x is nil (its first test) — a caller that reads `.Key` of the result on a path that does
+// not know x != nil dereferences nil for a node without that subtree. The helpers are found, not listed: a library function
+// with one pointer result, every nil-returning path of which is guarded by `p:k == nil` for one pointer parameter k (helpers
+// that also answer nil for other reasons — sibling(), uncle(), Left() — are not in the family: their callers rely on shape
+// invariants). At every call site in the library, a field access through the result requires a guard `arg != nil` on the
+// path (or an argument that is non-nil by construction).
+
+func nilForNilParam(c *Ctx, fn *ssa.Function) (int, bool) {
+	if fn.Blocks == nil || fn.Signature.Results().Len() != 1 {
+		return 0, false
+	}
+	if _, ok := fn.Signature.Results().At(0).Type().Underlying().(*types.Pointer); !ok {
+		return 0, false
+	}
+	gc := c.GC(fn)
+	if gc.Undecided != "" {
+		return 0, false
+	}
+	k := -1
+	nNil := 0
+	for _, g := range gc.GCs {
+		if g.Exit.Op != "return" || len(g.Exit.Args) != 1 || g.Exit.Args[0].String() != "#:nil" {
+			continue
+		}
+		nNil++
+		// exactly the guard p:k == nil, from the entry
+		if g.From != 0 || len(g.Guards) != 1 || len(g.Effects) != 0 {
+			return 0, false
+		}
+		a := g.Guards[0]
+		if a.Op != "==" || len(a.Args) != 2 || a.Args[0].String() != "#:nil" || a.Args[1].Op != "p" {
+			return 0, false
+		}
+		kk := atoiOr(a.Args[1].Leaf, -1)
+		if k >= 0 && kk != k {
+			return 0, false
+		}
+		k = kk
+	}
+	if nNil != 1 || k < 0 {
+		return 0, false
+	}
+	return k, true
+}
+
+func ruleR44(c *Ctx) *RuleResult {
+	p := c.p
+	r := &RuleResult{Rule: "R44", Title: "NILRESULT: the result of a helper that answers nil exactly for a nil argument is dereferenced only where the argument is known non-nil", Floor: 1}
+	clause := "a field access through the result of %s (which returns nil when its argument %d is nil) happens only on paths that know that argument to be non-nil"
+	helpers := map[string]int{}
+	hfn := map[string]*ssa.Function{}
+	for _, fn := range p.Funcs {
+		if fn.Parent() != nil || fn.Pkg == nil {
+			continue
+		}
+		if k, ok := nilForNilParam(c, fn); ok {
+			helpers[p.FuncKey(fn)] = k
+			hfn[p.FuncKey(fn)] = fn
+		}
+	}
+	type site struct{ caller, helper string }
+	bad := map[site][]string{}
+	seen := map[site]int{}
+	pos := map[site]string{}
+	for _, fn := range p.Funcs {
+		if fn.Parent() != nil || fn.Blocks == nil || fn.Pkg == nil {
+			continue
+		}
+		gc := c.GC(fn)
+		if gc.Undecided != "" {
+			continue
+		}
+		for _, g := range gc.GCs {
+			check := func(t *Term) bool {
+				// (fa:F (call:H … ARG …))
+				if t.Op != "fa" || len(t.Args) != 1 || t.Args[0].Op != "call" {
+					return false
+				}
+				call := t.Args[0]
+				k, ok := helpers[call.Leaf]
+				if !ok || k+1 >= len(call.Args) {
+					return false
+				}
+				arg := call.Args[k+1] // Args[0] is the epoch marker
+				s := site{p.FuncKey(fn), call.Leaf}
+				seen[s]++
+				pos[s] = p.FuncPos(fn)
+				if arg.Op == "new" || (arg.Op == "p" && arg.Leaf == "0" && fn.Signature.Recv() != nil) {
+					return false
+				}
+				as := noEpoch(arg)
+				known := false
+				for _, a := range g.Guards {
+					if a.Op == "!=" && len(a.Args) == 2 && a.Args[0].String() == "#:nil" && noEpoch(a.Args[1]) == as {
+						known = true
+					}
+				}
+				if !known {
+					bad[s] = append(bad[s], fmt.Sprintf(".%s of the result is accessed on a path that does not know %s != nil: %s", t.Leaf, trunc(as, 120), trunc(guardsString(g), 200)))
+				}
+				return false
+			}
+			for _, a := range g.Guards {
+				a.any(check)
+			}
+			for _, ef := range g.Effects {
+				ef.any(check)
+			}
+			g.Exit.any(check)
+		}
+	}
+	// (b) no path reads or writes a field or slot through the nil constant (a pointer variable that no path ever assigns)
+	nfn := 0
+	for _, fn := range p.Funcs {
+		if fn.Parent() != nil || fn.Blocks == nil || fn.Pkg == nil {
+			continue
+		}
+		gc := c.GC(fn)
+		if gc.Undecided != "" {
+			continue
+		}
+		nfn++
+		var hits []string
+		for _, g := range gc.GCs {
+			check := func(t *Term) bool {
+				if (t.Op == "fa" || t.Op == "ia") && len(t.Args) >= 1 && t.Args[0].String() == "#:nil" {
+					hits = append(hits, fmt.Sprintf("%s is accessed through the nil constant: %s", trunc(noEpoch(t), 60), trunc(guardsString(g), 160)))
+				}
+				return false
+			}
+			for _, a := range g.Guards {
+				a.any(check)
+			}
+			for _, ef := range g.Effects {
+				ef.any(check)
+			}
+			g.Exit.any(check)
+		}
+		if len(hits) > 0 {
+			r.bad("nilconst:"+p.FuncKey(fn), "no path dereferences the nil constant", p.FuncPos(fn), strings.Join(dedup(hits), "\n"))
+		}
+	}
+	r.ok("nilconst", "no path of any library function reads or writes a field or slot through the nil constant (a pointer variable that is never assigned on that path)", "-", fmt.Sprintf("%d functions", nfn))
+	var sites []site
+	for s := range seen {
+		sites = append(sites, s)
+	}
+	sort.Slice(sites, func(i, j int) bool {
+		if sites[i].caller != sites[j].caller {
+			return sites[i].caller < sites[j].caller
+		}
+		return sites[i].helper < sites[j].helper
+	})
+	for _, s := range sites {
+		key := s.caller + "→" + lastIdent(s.helper)
+		cl := fmt.Sprintf(clause, s.helper, helpers[s.helper])
+		if len(bad[s]) > 0 {
+			r.bad(key, cl, pos[s], strings.Join(dedup(bad[s]), "\n"))
+		} else {
+			r.ok(key, cl, pos[s], fmt.Sprintf("%d access(es), each under a non-nil test of the argument", seen[s]))
+		}
+	}
+	return r
 }
